@@ -490,7 +490,7 @@ def run_case(case):
 def main(tier, seed):
     V = core.Verdict(PROPERTY, tier, seed)
     r = core.rng(PROPERTY, seed)
-    nb = 96 if tier == 'quick' else 2000
+    nb = 192 if tier == 'quick' else 2000
     cases = [dict(seed=r.getrandbits(40), n=4, tier=tier, kinds=['constructors', 'evolution', 'evolution', 'evolution', 'rescale', 'megno']) for _ in range(nb)]
     res = core.run_cases('checks.c16_variational', 'rel', cases, timeout_case=1500)
     for c, rr in zip(cases, res):
